@@ -667,19 +667,23 @@ if parallel.use_mpi():
             patches = split_into_patches(worker_chunk, patch_centers)
             parallel.COMM.send(patches, dest=worker_config.writer_rank, tag=1)
 
+        # messages from the same rank are received in order, every rank signals
+        # the writer individually after sending its final data
+        parallel.COMM.send(EndOfQueue, dest=worker_config.writer_rank, tag=1)
         comm.Barrier()
 
     def writer_task(
         cache_directory: Path | str,
         *,
         chunk_info: DataChunkInfo,
+        num_senders: int,
         overwrite: bool = True,
         buffersize: int = -1,
         num_patches: int | None = None,
     ) -> None:
         """A dedicated writer process that recieves a dictionary with patch IDs
         and patch data to write using a :obj:`CatalogWriter`, terminated when
-        receiving :obj:`EndOfQueue` sentinel."""
+        receiving the :obj:`EndOfQueue` sentinel from all sending ranks."""
         recv = parallel.COMM.recv
         with CatalogWriter(
             cache_directory,
@@ -688,8 +692,12 @@ if parallel.use_mpi():
             buffersize=buffersize,
             num_patches=num_patches,
         ) as writer:
-            while (patches := recv(source=MPI.ANY_SOURCE, tag=1)) is not EndOfQueue:
-                writer.process_patches(patches)
+            while num_senders > 0:
+                patches = recv(source=MPI.ANY_SOURCE, tag=1)
+                if patches is EndOfQueue:
+                    num_senders -= 1
+                else:
+                    writer.process_patches(patches)
 
     def write_patches(
         path: Path | str,
@@ -753,6 +761,7 @@ if parallel.use_mpi():
             writer_task(
                 cache_directory=path,
                 chunk_info=reader.copy_chunk_info(drop_patch_ids=True),
+                num_senders=len(worker_config.active_ranks),
                 overwrite=overwrite,
                 buffersize=buffersize,
                 num_patches=None if patch_centers is None else len(patch_centers),
@@ -773,8 +782,6 @@ if parallel.use_mpi():
 
             worker_comm.Free()
 
-        if parallel.COMM.Get_rank() == worker_config.reader_rank:
-            parallel.COMM.send(EndOfQueue, dest=worker_config.writer_rank, tag=1)
         parallel.COMM.Barrier()
 
 else:
